@@ -524,15 +524,16 @@ class Deep:
 
     def _opaque(self, st, path, args, site, cont, f=None):
         uid = self.fresh()
-        # references to small constant values (`&ScenarioType::Serial`) are shown by value
+        # shared references to known values (`&ScenarioType::Serial`, `&key`) are shown by value
         snap = []
         for a in args:
             if isinstance(a, tuple) and a and a[0] == "ref":
                 v = self.read(st, a[1])
                 if v[0] == "const" or (v[0] == "variant" and not v[3]):
                     a = ("refto", v)
+                elif a[1] not in self.mut_refs and a[1] in st.heap and v[0] not in ("undef", "unknown"):
+                    a = ("refto", v)
             snap.append(a)
-        args = snap
         # an opaque callee may write through the `&mut` references it receives (directly or captured by a closure
         # argument): what they point to is unknown afterwards
         for a in args:
@@ -541,6 +542,7 @@ class Deep:
                     old = st.heap[x[1]]
                     if old[0] in ("variant", "const", "tuple"):
                         self.write(st, x[1], ("havoc", uid, x[1]))
+        args = snap
         if f is not None:
             self.call_info[uid] = f
         st.effects.append(("call", path, tuple(args), site, uid))
